@@ -176,6 +176,103 @@ def ang2dir (angles : List α) : Except String (List α) :=
     | _ => .ok vec
   else .ok vec
 
+/-- the direction vector of one row of `n ≥ 1` spherical angles (what `ang2dir` writes into `vec[r, :]`) -/
+def dirVec (angles : List α) : List α :=
+  let n := angles.length
+  let s := angles.map Transc.sin
+  let v0 := prodL s
+  let rest := (idxRange 1 (n + 1)).map fun i =>
+    prodL (s.drop i) * Transc.cos (angles[i - 1]?.getD ((0:Nat):α))
+  let vec := v0 :: rest
+  if n + 1 = 2 ∨ n + 1 = 3 then
+    match vec with
+    | a :: b :: t => b :: a :: t
+    | _ => vec
+  else vec
+
+/-- the whole call `ang2dir(angles, dim=dim)` with several directions at once.
+    `preDim = np.asanyarray(angles).ndim` (0 scalar, 1 flat sequence, 2 nested, more → `ValueError`),
+    `rows` / `ncols` = the array after `np.atleast_2d` (`ncols` travels separately for arrays without rows; ragged
+    input is a `ValueError` of `np.asarray`).  `dim` defaults to `ncols + 1`; for `dim = 2`, one row and flat input the
+    array is transposed (one angle per direction); then `dim` must equal `ncols + 1` and not be `1`.  Every row is
+    converted on its own (`np.prod(..., axis=1)`): row `r` of the result depends on row `r` of the input only. -/
+def ang2dirCall (preDim ncols : Nat) (rows : List (List α)) (dim : Option Nat) : Except String (List (List α)) :=
+  if 2 < preDim ∨ (rows.any fun r => r.length != ncols) = true then .error "ValueError" else
+  let d := dim.getD (ncols + 1)
+  let tr : Bool := decide (d = 2) && decide (rows.length = 1) && decide (preDim < 2)
+  let rows' := if tr then (rows.headD []).map (fun a => [a]) else rows
+  let ncols' := if tr then 1 else ncols
+  if d ≠ ncols' + 1 ∨ d = 1 then .error "ValueError" else .ok (rows'.map dirVec)
+
+/-! ### in-place histories of a (plain) `CovModel`: `dim`, `len_scale`, `anis`, `angles` setters
+
+Only what the geometry depends on is carried.  A setter that raises (`set_len_anis` rejecting a ratio, `dim < 1`)
+leaves the state as it was.  Every geometric method (`isometrize`, `anisometrize`, `main_axes`, `_get_iso_rad`,
+`cov_spatial`) is a function of the *current* `(dim, angles, anis)` — there is no other state. -/
+
+structure MState (α : Type) where
+  dim : Nat
+  lenScale : α
+  anis : List α
+  angles : List α
+
+inductive MOp (α : Type) where
+  /-- `model.anis = v` (a scalar is a one-element list) -/
+  | setAnis (v : List α)
+  /-- `model.angles = v` -/
+  | setAngles (v : List α)
+  /-- `model.len_scale = v`: one value keeps the ratios, several redefine them -/
+  | setLenScale (v : List α)
+  /-- `model.dim = d` -/
+  | setDim (d : Nat)
+
+/-- `CovModel.__init__` of a plain model: `set_dim`, `set_len_anis(dim, len_scale, anis)`, `set_model_angles` -/
+def mInit (dim : Nat) (ls anis angles : List α) : Except String (MState α) :=
+  if dim < 1 then .error "ValueError" else
+  match setLenAnis dim ls anis with
+  | .error e => .error e
+  | .ok (l0, an) => .ok ⟨dim, l0, an, setAngles dim angles⟩
+
+/-- one setter call -/
+def mStep (s : MState α) : MOp α → Except String (MState α)
+  | .setAnis v =>
+    match setLenAnis s.dim [s.lenScale] v with
+    | .error e => .error e
+    | .ok (l0, an) => .ok { s with lenScale := l0, anis := an }
+  | .setAngles v => .ok { s with angles := setAngles s.dim v }
+  | .setLenScale v =>
+    match setLenAnis s.dim v s.anis with
+    | .error e => .error e
+    | .ok (l0, an) => .ok { s with lenScale := l0, anis := an }
+  | .setDim d =>
+    if d < 1 then .error "ValueError" else
+    match setLenAnis d [s.lenScale] s.anis with
+    | .error e => .error e
+    | .ok (l0, an) => .ok ⟨d, l0, an, setAngles d s.angles⟩
+
+/-- a setter that raises leaves the model as it was -/
+def mStepKeep (s : MState α) (op : MOp α) : MState α × String :=
+  match mStep s op with
+  | .ok s' => (s', "ok")
+  | .error e => (s, e)
+
+/-- the states a history walks through (after the constructor and after every setter), with the status of the call -/
+def mRun (s : MState α) : List (MOp α) → List (MState α × String)
+  | [] => []
+  | op :: rest => let r := mStepKeep s op; r :: mRun r.1 rest
+
+/-- the final state of a history -/
+def mFinal (s : MState α) (ops : List (MOp α)) : MState α := ops.foldl (fun st op => (mStepKeep st op).1) s
+
+/-- the tables the driver keeps per model state (numpy computes each matrix once per call; the closure forms above
+    would recompute the rotation loop for every entry): `S⁻¹·Rᵀ` and `R·S`, block-equal to `matrixIsometrize` /
+    `matrixAnisometrize` (`Props/C12.lean: isoTab_eq`, `anisoTab_eq`) -/
+def isoTab (dim : Nat) (angles anis : List α) : Array α :=
+  tabArr dim (matmul dim (matrixIsotropify dim anis) (ofArr dim (tabArr dim (matrixDerotate dim angles))))
+
+def anisoTab (dim : Nat) (angles anis : List α) : Array α :=
+  tabArr dim (matmul dim (ofArr dim (tabArr dim (matrixRotate dim angles))) (matrixAnisotropify dim anis))
+
 /-! ### driver -/
 
 def matOut (dim : Nat) (m : Nat → Nat → Float) : Json := fl2 (tab2 m dim dim)
@@ -231,15 +328,61 @@ def ops (op : String) (j : Json) : Option (Except String Json) :=
       let dim ← getNat j "dim"; let n ← getNat j "n"
       let a ← getFloats j "angles"; let s ← getFloats j "anis"; let pos ← getFloats j "pos"
       let cols := (List.range n).map fun c => vecOfArr pos n c
-      let iso := cols.map fun x => tab (isometrize dim a.toList s.toList x) dim
-      let ani := cols.map fun x => tab (anisometrize dim a.toList s.toList x) dim
-      let rad := cols.map fun x => isoRad dim a.toList s.toList x
+      let Mi := isoTab dim a.toList s.toList
+      let Ma := anisoTab dim a.toList s.toList
+      let iso := cols.map fun x => tab (applyMat dim (ofArr dim Mi) x) dim
+      let ani := cols.map fun x => tab (applyMat dim (ofArr dim Ma) x) dim
+      let rad := cols.map fun x => norm2 dim (applyMat dim (ofArr dim Mi) x)
       return Json.arr #[fl2 iso, fl2 ani, fl rad])
   | "geo_ang2dir" => some (do
       let a ← getFloats j "angles"
       match ang2dir a.toList with
       | .ok v => return fl v
       | .error e => return Json.str e)
+  | "geo_ang2dir_call" => some (do
+      -- the whole ang2dir call: rows (list of angle rows), ncols, pre_dim, optional dim
+      let preDim ← getNat j "pre_dim"; let ncols ← getNat j "ncols"
+      let rv ← j.getObjVal? "rows"
+      let ra ← rv.getArr?
+      let rows ← ra.mapM fun r => do
+        let a ← r.getArr?
+        let fs ← a.mapM jsonToFloat
+        pure fs.toList
+      let dim : Option Nat ← match j.getObjVal? "dim" with
+        | .ok (Json.num _) => do let n ← getNat j "dim"; pure (some n)
+        | _ => pure none
+      match ang2dirCall preDim ncols rows.toList dim with
+      | .ok v => return fl2 v
+      | .error e => return Json.str e)
+  | "geo_hist" => some (do
+      -- constructor + setter history of a plain CovModel; after every step: status, state and the geometry of the
+      -- CURRENT state on the first `dim` rows of a (4 × n) position table
+      let dim ← getNat j "dim"; let ls ← getFloats j "len_scale"
+      let a ← getFloats j "angles"; let s ← getFloats j "anis"
+      let n ← getNat j "n"; let pos ← getFloats j "pos"
+      let ov ← j.getObjVal? "ops"
+      let oa ← ov.getArr?
+      let ops ← oa.mapM fun o => do
+        let k ← getStr o "k"
+        match k with
+        | "anis" => do let v ← getFloats o "v"; pure (MOp.setAnis v.toList)
+        | "angles" => do let v ← getFloats o "v"; pure (MOp.setAngles v.toList)
+        | "len" => do let v ← getFloats o "v"; pure (MOp.setLenScale v.toList)
+        | "dim" => do let d ← getNat o "d"; pure (MOp.setDim d)
+        | _ => throw s!"unknown history op {k}"
+      match mInit dim ls.toList s.toList a.toList with
+      | .error e => return Json.str e
+      | .ok s0 =>
+        let obs (st : MState Float) (status : String) : Json :=
+          let cols := (List.range n).map fun c => vecOfArr pos n c
+          let Mi := isoTab st.dim st.angles st.anis
+          let Ma := anisoTab st.dim st.angles st.anis
+          let iso := cols.map fun x => tab (applyMat st.dim (ofArr st.dim Mi) x) st.dim
+          let ani := cols.map fun x => tab (applyMat st.dim (ofArr st.dim Ma) x) st.dim
+          let rad := cols.map fun x => norm2 st.dim (applyMat st.dim (ofArr st.dim Mi) x)
+          Json.arr #[Json.str status, Json.num (JsonNumber.fromNat st.dim), fbits st.lenScale, fl st.anis, fl st.angles,
+            fl2 iso, fl2 ani, fl rad, matOut st.dim (mainAxes st.dim st.angles)]
+        return Json.arr ((obs s0 "ok") :: (mRun s0 ops.toList).map fun r => obs r.1 r.2).toArray)
   | _ => none
 
 end GSV.Model.Geo
